@@ -34,7 +34,7 @@ Progress == TLCSet(1, IF TLCGet(1) < l' THEN l' ELSE TLCGet(1))
 Matches(m, e) ==
   /\ m.t = e.t /\ m.k = e.k
   /\ CASE e.k = "load" -> m.loc = e.loc /\ m.v = e.v
-       [] e.k \in {"faa", "xchg"} -> m.loc = e.loc /\ m.v = e.v /\ m.a = e.a
+       [] e.k \in {"faa", "xchg", "for"} -> m.loc = e.loc /\ m.v = e.v /\ m.a = e.a
        [] e.k = "cas" -> m.loc = e.loc /\ m.v = e.v /\ m.a = e.a /\ m.b = e.b /\ m.ok = e.ok
        [] e.k = "fwait" -> m.loc = e.loc /\ m.a = e.a /\ m.v = e.v /\ m.ok = e.ok
        [] e.k = "fret" -> m.loc = e.loc /\ m.ok = e.ok
